@@ -634,7 +634,10 @@ class Share:
         if self._overrun_ok:
             # easy! this includes version number, sizes, and offsets
             want_it.add(0, 1024)
-            return
+            # fall through: the version number and the offset table are
+            # still indispensable, so that a share which is too short to
+            # hold them is abandoned (DataUnavailable) instead of being
+            # asked for the same bytes for ever
 
         # v1 has an offset table that lives [0x0,0x24). v2 lives [0x0,0x44).
         # To be conservative, only request the data that we know lives there,
